@@ -13,16 +13,27 @@ related to an abstract array `m` (`DRel T m`, `SRel S m`):
 for all key forms and all right-hand sides the class supports.
 
 PROVED (`_partial`): the same statements for histories whose operations satisfy
-`ProvedHist` (dense) / `ProvedHistS` (sparse), i.e. with these key forms EXCLUDED:
-  * dense:  index lists inside region keys; array / tensor right-hand sides of region
-            writes; linear keys on the order-0 (empty) tensor; the empty region key `()`.
-  * sparse: every region key (reads and writes; their models are exercised by the
-            correspondence harness only); an empty array as right-hand side; linear-index
+`ProvedHist` (dense, `IdxOp.provedAt`) / `ProvedHistS` (sparse, `IdxOp.provedAtSparse`).
+Covered for BOTH classes: subscript arrays (any right-hand side; growth of extents and
+order; repeated rows, the last value wins; zeros), linear keys (integer, slice, index
+array), region keys of integers and slices with a scalar right-hand side (zero included)
+and region reads.  Covered for the sparse class in addition: index lists in region keys
+(writes with a scalar; reads with duplicate-free lists), with growth of extents and order.
+EXCLUDED key forms / right-hand sides:
+  * dense:  index lists inside region keys (they are NumPy advanced indexing, known
+            finding K04-dense-region-lists-numpy-advanced); array / tensor right-hand sides
+            of region writes; linear keys on the order-0 (empty) tensor; the empty key `()`.
+  * sparse: sparse-tensor right-hand sides of region writes; a NEW mode addressed by an
+            open slice (refused by the class) or by a slice with stop ≤ 0; region reads with
+            an integer outside `-extent .. extent-1` (the class returns 0 instead of raising),
+            with a slice that selects nothing (the class cannot return a zero extent) or with
+            an index list that is empty, out of range or repeats an entry (known finding
+            K04-sparse-read-repeated-list-entry); an empty array as right-hand side; linear
             writes other than the ones the class supports (1-way tensor, in-range
-            non-negative integer or non-empty slice); integer linear reads below `-cells`.
-Subscript arrays (any right-hand side, with growth of extents and order, repeated rows,
-zeros) and linear keys are proved for both classes; integer/slice regions with a scalar
-for the dense class.
+            non-negative integer or non-empty slice); integer linear reads below `-cells`;
+            the empty key `()`.
+These excluded forms are exercised by the correspondence harness (implementation = model =
+oracle on every step), not by the theorems.
 -/
 import PyttbModel.Lemmas.MutArrayCor
 import Mathlib.Algebra.Group.Int.Defs
@@ -209,6 +220,16 @@ example : ProvedHist (MArr.ofDense (⟨[2, 2], [1, 0, 0, 4]⟩ : Dense Int))
      .write (.region [.slice none none none, .int (-1), .slice (some 0) (some 3) none]) (.scalar 7),
      .read (.lin (-1)),
      .read (.region [.int 0, .slice none none (some 2), .int 1])] :=
+  ⟨rfl, rfl, rfl, rfl, trivial⟩
+
+/-- A history of proved forms for the sparse class on a 2×3 tensor: a region write with a
+slice, a negative integer and growth by an index list; deletion of a region by zero; a
+single-element read and a tensor-valued read. -/
+example : ProvedHistS (⟨[2, 3], fun i => if i = [1, 2] then (4 : Int) else 0⟩ : MArr Int)
+    [.write (.region [.slice none none none, .int (-1), .list [0, 2, 2]]) (.scalar 7),
+     .write (.region [.int 0, .slice (some 1) none none, .slice none (some 4) (some 2)]) (.scalar 0),
+     .read (.region [.int 1, .int (-1), .int 2]),
+     .read (.region [.slice none none none, .int 2, .list [2, 0]])] :=
   ⟨rfl, rfl, rfl, rfl, trivial⟩
 
 /-- The same kind of history for the sparse class (1-way, so that linear writes are supported). -/
